@@ -605,8 +605,12 @@ class DictConverter(t.Generic[FromDataK, FromDataV], Converter[t.Mapping[FromDat
             def _v_into_data(v: t.Any) -> DataType:
                 return self.v_conv.into_data(v)
 
+        def _as_key(data: DataType) -> DataType:
+            # sequence-like keys (e.g. from a frozenset) are serialized as lists, which can't be mapping keys
+            return tuple(map(_as_key, data)) if isinstance(data, (list, tuple)) else data
+
         return {
-            _k_into_data(k): _v_into_data(v)
+            _as_key(_k_into_data(k)): _v_into_data(v)
             for (k, v) in t.cast(t.Mapping[FromDataK, FromDataV], val).items()
         }
 
